@@ -479,6 +479,19 @@ func vfRequest(ev string, variant int) []interface{} {
 		for i := 0; i < np; i++ {
 			ps = append(ps, &requests.SignatureProposalParticipantsEntry{Username: vfUser(i), PubKey: vfPub(i), DkgPubKey: vfKey})
 		}
+		// the opening proposal is decoded from untrusted, unsigned bytes: the list may hold a null entry, and a communication
+		// key need not have ed25519's length (shape 0 = well formed; 1 = last entry null; 2 = participant 1's key has 16 bytes,
+		// which passes the ">= 10 bytes" validation; 3 = that key has 33 bytes)
+		if np >= 2 {
+			switch vf.Choose("req.init.shape", 4) {
+			case 1:
+				ps[np-1] = nil
+			case 2:
+				ps[1].PubKey = vfPub(1)[:16]
+			case 3:
+				ps[1].PubKey = append(append([]byte{}, vfPub(1)...), 7)
+			}
+		}
 		return []interface{}{requests.SignatureProposalParticipantsListRequest{Participants: ps, SigningThreshold: vf.Int("req.threshold"), CreatedAt: created}}
 	case "event_sig_proposal_confirm_by_participant", "event_sig_proposal_decline_by_participant":
 		return []interface{}{requests.SignatureProposalParticipantRequest{ParticipantId: vf.Int("req.pid"), CreatedAt: created}}
